@@ -6,6 +6,7 @@ import os
 
 from ..driver import run_store, written_allocs
 from ..store import roots_of, full_box, comp_rank
+from ..poly import sym
 from ..values import Arr, Inst, Unsupported
 from .simtools import STAGE_FUNCS, array_attr_names, sim_configs, stepped_sim
 from .traces import coupling_traces
@@ -246,5 +247,20 @@ def run(S, tier, rep):
     from .c09 import freshness
     freshness(S, rep, "C18.a")
     restart_helper(S, rep)
+    # a checkpoint can only resume the run if the IO layer works on the LIVE arrays: save reads what the simulator holds at
+    # step k and load refills those very arrays (a registration that silently detaches a copy loses both).  Decided by the
+    # symbolic round trip of C17 and recorded here as the checkpoint clause of this property.
+    from ..report import Report
+    from .c17 import round_trip
+    tmp = Report("C18", "other")
+    for dim in (2, 3):
+        round_trip(S, tmp, dim, sym("N"), "N")
+    for o in tmp.obligations:
+        if o["rule"] == "C17.a":
+            o = dict(o, rule="C18.c")
+            if "key" in o:
+                o["key"] = o["key"].replace("C17.a", "C18.c")
+            rep.obligations.append(o)
+    rep.require_min("C18.c", 10)
     rep.require_min("C18.a", 76)
     rep.require_min("C18.b", 9)
